@@ -33,6 +33,9 @@ def matrix():
                 for dynamic in (True, False):
                     out.append((cls, storage, imputer, dynamic))
     out += [("batch", "batch", None, True), ("batch_original", "batch", None, True), ("interval", "interval", None, True)]
+    # models / losses that go through the library's wrappers (string labels of a river classifier, probabilities, a river metric)
+    out += [("sage_river_labels", None, None, True), ("sage_river_labels", "interval", "product", False),
+            ("pfi_river_proba_metric", None, None, True), ("sage_sklearn", "geometric", None, True)]
     return out
 
 
@@ -44,6 +47,10 @@ def run_one(cfg, seed, n):
     random.seed(seed)
     np.random.seed(seed)
     names = ["c1", "n1", "n2"]
+    wrapped = None
+    if cls in ("sage_river_labels", "pfi_river_proba_metric", "sage_sklearn"):
+        wrapped = cls
+        cls = "pfi" if cls.startswith("pfi") else "sage"
 
     def model(x):
         if not isinstance(x, dict):
@@ -77,6 +84,30 @@ def run_one(cfg, seed, n):
         imp = TreeImputer(model, st, use_storage=True)
     elif imputer == "tree_model":
         imp = TreeImputer(model, st, use_storage=False)
+    if wrapped is not None:
+        tr = random.Random(4)
+        if wrapped == "sage_sklearn":
+            from sklearn.tree import DecisionTreeRegressor
+            X = [[tr.choice([0, 1, 2]), tr.gauss(0, 1), tr.gauss(0, 2)] for _ in range(60)]
+            est = DecisionTreeRegressor(max_depth=3, random_state=0).fit(X, [2 * a + 0.5 * b - c for a, b, c in X])
+            model = est.predict
+        else:
+            from river.tree import HoeffdingTreeClassifier
+            clf = HoeffdingTreeClassifier(grace_period=5)
+            for _ in range(80):
+                c1 = tr.choice([0, 1, 2])
+                clf.learn_one({"c1": c1, "n1": 10.0 * c1 + tr.gauss(0, 1), "n2": tr.gauss(0, 2)}, ["low", "mid", "high"][c1])
+            model = clf.predict_one if wrapped == "sage_river_labels" else clf.predict_proba_one
+        if wrapped == "pfi_river_proba_metric":
+            from river.metrics import CrossEntropy
+            loss = CrossEntropy()
+        elif wrapped == "sage_river_labels":
+            def loss(y, p):
+                return sum((float(v) - (1.0 if k == ["low", "mid", "high"][y] else 0.0)) ** 2 for k, v in p.items())
+        if wrapped == "pfi_river_proba_metric":
+            ys = ["low", "mid", "high"]
+        if imp is not None:
+            imp = MarginalImputer(model, "product", st)
     kw = {}
     if st is not None:
         kw["storage"] = st
@@ -96,6 +127,8 @@ def run_one(cfg, seed, n):
         c1 = data.choice([0, 1, 2])
         x = {"c1": c1, "n1": 10.0 * c1 + data.gauss(0, 1), "n2": data.gauss(0, 2)}
         y = data.choice([0, 1, 2])
+        if wrapped == "pfi_river_proba_metric":
+            y = ["low", "mid", "high"][y]
         if cls == "batch":
             vals = ex.explain_one(x, y, verbose=False) if t < 6 else ex.importance_values
         elif cls == "batch_original":
@@ -128,6 +161,18 @@ def noise():
         t.update({"c1": i % 2, "n1": float(i)})
     MultiValueTracker(WelfordTracker()).update({"z": 1.0})
     run_one(("sage", None, None, True), 99, 8)
+    # wrappers used before: other labels, other feature orders, a metric loss
+    from ixai.utils.wrappers import RiverWrapper, SklearnWrapper
+    from ixai.utils.validators import validate_loss_function
+    from river.metrics import CrossEntropy, MAE
+    lab = iter(["decoy_a", "decoy_b", "decoy_a"])
+    rw = RiverWrapper(lambda x: next(lab))
+    for _ in range(3):
+        rw({"a": 1})
+    SklearnWrapper(lambda a: a.sum(axis=1), feature_names=["n2", "c1"])({"c1": 1.0, "n2": 2.0})
+    validate_loss_function(CrossEntropy())(0, {0: 0.5, 1: 0.5})
+    validate_loss_function(MAE())(1.0, {"output": 2.0})
+    run_one(("sage_river_labels", None, None, True), 98, 6)
     time.sleep(0.3)
     return junk
 
